@@ -6,7 +6,7 @@ use verif_harness::gen::perfdata::*;
 
 pub struct C01;
 
-const SHAPE_QUICK: Shape = Shape { max_len: 120, mappings: false, violate_pct: 30, allow_reuse: true, allow_fold: true, files: Vec::new() };
+const SHAPE_QUICK: Shape = Shape { max_len: 120, mappings: false, violate_pct: 30, allow_reuse: true, allow_fold: true, files: Vec::new(), jit: false };
 
 impl Prop for C01 {
     fn id(&self) -> &'static str {
